@@ -327,6 +327,14 @@ def _run(chk, wd, proved):
     import c07_seam as S
     with ctx.Pool(vlib.NCPU, initializer=S.worker_init, initargs=(wd,)) as pool:
         fres = pool.map(S.finish_job, fjobs, chunksize=16)
+        # configuration text -> dispatcher, with different capture_maxbytes / events / logfile on the two channels
+        # ([program:x] parsed by the real ServerOptions; family shared with C07's check)
+        import c07
+        gjobs = [j for _f, j in c07.gen_config(chk, B, E) if j[4]['sections'][0]['stdout']['capture'] != '0'
+                 or j[4]['sections'][0]['stderr']['capture'] != '0']
+        if chk.tier == 'quick':
+            gjobs = gjobs[::3]
+        gres = pool.map(S.history_job, gjobs, chunksize=16)
 
     distinct = set()
     nruns = 0
@@ -401,6 +409,16 @@ def _run(chk, wd, proved):
         chk.violation({'kind': 'model evaluation failed', 'part': 'finish', 'error': e}, nofail=True)
     for i in bad[:5]:
         chk.violation(dict(fmeta[i], kind='model and implementation disagree on a run through Subprocess.finish()'), nofail=True)
+    # ---- capture configured from [program:x] text with different values on the two channels
+    nconf = 0
+    for job, (tr, fail, verdicts) in zip(gjobs, gres):
+        nruns += 1
+        chk.dist('config')
+        wrong = [v for v in verdicts if v[2] != 'ansi-split']
+        if (tr is None or wrong) and nconf < 10:
+            nconf += 1
+            chk.violation({'kind': 'capture configured in [program:x] text does not behave as configured on each channel',
+                           'why': fail, 'channels': wrong, 'history': c07._json_job(job)})
     # ---- byte-level cuts around capture_maxbytes
     ccases = []
     for (s, cap, lm, stride), (total, n, badj) in zip(cjobs, cres):
@@ -531,6 +549,8 @@ def _run(chk, wd, proved):
                    'strip_ansi on with escape sequences (complete, unterminated, final byte in/outside the terminator table, bare ESC [, '
                    'lone ESC) before/inside/after the tags; real EventListenerPool objects subscribed to every ordered selection of '
                    '<= 3 event types receive each section event exactly once; '
+                   '[program:x] text with different capture_maxbytes/events/logfile on stdout and stderr parsed by the real '
+                   'ServerOptions and run (judged per channel); '
                    'every cut point of 8 streams with 0-2 sections where the part after the cut is still in the pipe at reap, through '
                    'the real Subprocess.finish() on the fake kernel seam; '
                    'distinct_nontrivial = distinct (log length, events, event '
